@@ -195,7 +195,17 @@ def generate(seed, tier):
         cb_['to-q'] = base
         sc['keyless'] = {'addr': q_addr, 'seed': r.randrange(2 ** 31), 'then': r.choice(['wait_for_probe', 'wait_for_probe', 'ask_at_once', 'informational_at_once'])}
         sc['meta']['family_kind'] = family = 'keyless'
-        sc['ops'].append({'t': 1.2, 'op': 'call', 'name': 'keyless_start'})
+        if r.random() < 0.5:
+            # ... or the other way round: the daemon is the initiator (traffic towards that peer), the peer answers IKE_SA_INIT as a
+            # conforming responder would and the IKE_AUTH request with something that is protected but proves nothing
+            sc['keyless']['role'] = 'responder'
+            sc['keyless']['then'] = r.choice(['informational_empty', 'auth_empty', 'auth_no_auth', 'auth_garbage', 'child_response', 'notify_only'])
+            conn_q = next(c for c in configs.read_conf(cb_).values() if str(c['peer_addr']) == q_addr)
+            for t_ in (1.2, r.choice([4.0, 6.5, 9.0])):
+                sc['ops'].append({'t': t_, 'op': 'packet', 'node': 'B', 'entry': 0,
+                                  'flow': configs.flow_for_entry(r, conn_q['my_addr'], conn_q['peer_addr'], conn_q['protect'][0])})
+        else:
+            sc['ops'].append({'t': 1.2, 'op': 'call', 'name': 'keyless_start'})
         sc['ops'].sort(key=lambda x: x['t'])
         sc['until'] = sc['quiet_from'] = 16.0
         return sc
@@ -318,11 +328,82 @@ def run(scenario):
                     self._send(R.CREATE_CHILD_SA, self.next_id, pls)
                     self.next_id += 1
 
+                def _respond(self, exch, mid, pls):
+                    d = R.sk_seal({'spi_i': self.spi_i, 'spi_r': self.spi_r, 'exch': exch, 'I': False, 'R': True, 'id': mid}, pls, self.suite,
+                                  self.keys['ar'], self.keys['er'], self._iv())
+                    w.net.inject(d, kl['addr'], str(self.conn['my_addr']), 0.005, 'keyless')
+
+                def as_responder(self, data, h):
+                    first = lambda prop: [next(t for t in prop['transforms'] if t['type'] == ty) for ty in sorted({t['type'] for t in prop['transforms']})]
+                    if h['exch'] == 34 and not h['R'] and h['id'] == 0:
+                        try:
+                            pls = [R.dec_payload(p) for p in R.dec_chain(bytes(data)[28:], h['next'])]
+                            sa = next(p for p in pls if p['type'] == R.P_SA)
+                            ke = next(p for p in pls if p['type'] == R.P_KE)
+                            ni = next(p for p in pls if p['type'] == R.P_NONCE)['data']
+                            prop = dict(sa['proposals'][0], transforms=first(sa['proposals'][0]))
+                            suite = R.Suite.from_proposal(prop)
+                            if suite.dh != ke['group']:
+                                return
+                            if self.keys is None:
+                                self.spi_i, self.spi_r, self.suite = h['spi_i'], bytes(self.r.getrandbits(8) for _ in range(8)), suite
+                                self.keys = R.ike_keys(suite, ni, self.ni, self.spi_i, self.spi_r, R.dh_shared(suite.dh, self.x, ke['data']))
+                                self.init_res = R.encode({'spi_i': self.spi_i, 'spi_r': self.spi_r, 'exch': 34, 'I': False, 'R': True, 'id': 0},
+                                                         [{'type': R.P_SA, 'proposals': [prop]}, {'type': R.P_KE, 'group': suite.dh, 'data': R.dh_public(suite.dh, self.x)},
+                                                          {'type': R.P_NONCE, 'data': self.ni}])
+                                self.log.append('answered IKE_SA_INIT as a conforming responder')
+                            if h['spi_i'] == self.spi_i:
+                                w.net.inject(self.init_res, kl['addr'], str(self.conn['my_addr']), 0.005, 'keyless')
+                        except Exception:
+                            return
+                        return
+                    if self.keys is None or h['R'] or (h['spi_i'], h['spi_r']) != (self.spi_i, self.spi_r):
+                        return
+                    try:
+                        _, chain, _ = R.sk_open(bytes(data), self.suite, self.keys['ai'], self.keys['ei'])
+                        pls = [R.dec_payload(p) for p in chain]
+                    except R.DecodeError:
+                        return
+                    then = kl['then']
+                    sa = next((p for p in pls if p['type'] == R.P_SA), None)
+                    tsi = next((p for p in pls if p['type'] == R.P_TSi), None)
+                    tsr = next((p for p in pls if p['type'] == R.P_TSr), None)
+                    child = []
+                    if sa and tsi and tsr:
+                        prop = dict(sa['proposals'][0], transforms=first(sa['proposals'][0]), spi=bytes(self.r.getrandbits(8) for _ in range(4)))
+                        child = [p for p in pls if p['type'] == R.P_NOTIFY and p['ntype'] == R.N_USE_TRANSPORT_MODE] + \
+                                [{'type': R.P_SA, 'proposals': [prop]}, {'type': R.P_TSi, 'selectors': tsi['selectors'][-1:]}, {'type': R.P_TSr, 'selectors': tsr['selectors'][-1:]}]
+                    nonce = [{'type': R.P_NONCE, 'data': bytes(self.r.getrandbits(8) for _ in range(32))}]
+                    idr = [{'type': R.P_IDr, 'id_type': 2, 'data': b'q@nowhere.example'}]
+                    if h['exch'] == 35 and h['id'] == 1:
+                        self.asked = True
+                        self.log.append(f'answered the IKE_AUTH request with {then}')
+                        if then == 'informational_empty':
+                            self._respond(R.INFORMATIONAL, 1, [])
+                        elif then == 'auth_empty':
+                            self._respond(35, 1, [])
+                        elif then == 'auth_no_auth':
+                            self._respond(35, 1, idr + child)
+                        elif then == 'auth_garbage':
+                            self._respond(35, 1, idr + [{'type': R.P_AUTH, 'method': 2, 'data': bytes(self.r.getrandbits(8) for _ in range(R.prf_len(self.suite.prf)))}] + child)
+                        elif then == 'child_response':
+                            self._respond(R.CREATE_CHILD_SA, 1, child[:2] + nonce + child[2:] if len(child) == 4 else child[:1] + nonce + child[1:])
+                        else:
+                            self._respond(35, 1, [{'type': R.P_NOTIFY, 'proto': 0, 'ntype': 16384, 'spi': b'', 'data': b''}])
+                    elif h['exch'] == R.CREATE_CHILD_SA and child:
+                        self.log.append('answered a CREATE_CHILD_SA request')
+                        self._respond(R.CREATE_CHILD_SA, h['id'], child[:-2] + nonce + child[-2:])
+                    else:
+                        self.log.append(f'answered request {h["exch"]} id {h["id"]}')
+                        self._respond(h['exch'], h['id'], [])
+
                 def on_datagram(self, data, src, dst):
                     try:
                         h = R.dec_header(bytes(data))
                     except R.DecodeError:
                         return
+                    if kl.get('role') == 'responder':
+                        return self.as_responder(data, h)
                     if h['exch'] == 34 and h['R'] and self.keys is None:
                         try:
                             pls = [R.dec_payload(p) for p in R.dec_chain(bytes(data)[28:], h['next'])]
@@ -507,7 +588,9 @@ def run(scenario):
             reach['keyless.asked'] = int(peer_.asked)
             node = w.nodes['B']
             bad = [sa for sa in node.ike_sas() if str(sa.peer_addr) == kl_['addr'] and int(sa.state) >= 10]
-            everest = [e for e in est if e['spi_i'] == peer_.spi_i]
+            everest = [e for e in est if e['spi_i'] == peer_.spi_i and (kl_.get('role') != 'responder' or e['spi_r'] == peer_.spi_r)]
+            if kl_.get('role') == 'responder':
+                reach['keyless.responder'] = 1
             if bad or everest:
                 return V('established_without_auth', {'then': kl_['then']},
                          f'B holds / held an established IKE_SA with {kl_["addr"]}, a peer that never sent an AUTH payload (it {"; ".join(peer_.log)})')
